@@ -14,6 +14,7 @@ RULES = {
     "C06.R4": "moves: QBytes _to_copy keeps the payload dtype and converts the scale only; QBits _to_copy refuses dtype changes, moves payload/zero-point without dtype and rebuilds through create(); detach keeps the class",
     "C06.R5": "flatten/unflatten agreement: key sets, length assertions, constructor argument mapping",
     "C06.R6": "in move/copy handlers the payload never meets arithmetic",
+    "C06.R9": "freshly quantized tensors: the quantizers only accept a scale laid out along the axis they record (per-axis: one extent, equal to the base's, on that axis; per-tensor: a 0-dim scale, so the payload keeps the base's shape) - the acceptance guards of C14.R1, plus the 0-dim clause",
     "C06.R8": "scale/axis agreement: a handler that changes the payload geometry keeps the scale only when it is 0-dim (per-tensor); scalar rescaling only for operands that do not broadcast (is_scalar definition)",
     "C06.R7": "quantizers capture size()/stride() of the source before any rebinding and pass them to the constructor",
 }
@@ -43,6 +44,11 @@ def run(chk):
                 chk.unknown("C06.R5", site, detail)
     chk.floor("C06.R5", len(serial.flatten_classes(repo)), 5, "classes with __tensor_flatten__")
     quantizer_geometry(chk)
+    if chk.pid == "C06":
+        from ..report import AliasedCheck
+        from . import c14
+        c14.run(AliasedCheck(chk, {"C14.R1": "C06.R9"}))
+    scalar_scale_clause(chk)
     chk.assume("torch's wrapper-subclass contract: outer size/stride/dtype/device are exactly what _make_wrapper_subclass is given")
 
 
@@ -217,3 +223,27 @@ def quantizer_geometry(chk):
             sz, st = U(f["size"]), U(f["stride"])
             chk.require("C06.R7", site, sz in (f"{base}.size()", f"{base}.shape") and st == f"{base}.stride()", f"{cname}.forward passes size `{sz}` and stride `{st}` of the un-rebound source `{base}`", f"{cname}.forward", "quantizer geometry", "grouped quantization (the source is reshaped before the payload is computed): the result reports the grouped shape")
     chk.floor("C06.R7", n, 2, "quantizer return paths")
+
+
+def scalar_scale_clause(chk):
+    """C06.R9: on the per-tensor path of the symmetric quantizer the scale is 0-dim (a one-element scale WITH dims makes base / scale
+    take the broadcast shape while the wrapper keeps base.size())."""
+    from ..core import path_facts, paths_of
+    repo = chk.repo
+    ci = repo.cls("SymmetricQuantizer")
+    fwd = ci.own("forward")
+    ps_ = positional_params(fwd)
+    axis, scale = ps_[3], ps_[4]
+    n = 0
+    for p in paths_of(fwd):
+        if p.end[0] != "return":
+            continue
+        f = path_facts(p)
+        if f.get(f"{axis} is None") is not True:
+            continue
+        n += 1
+        zero_dim = f.get(f"{scale}.ndim > 0") is False or f.get(f"{scale}.ndim == 0") is True or f.get(f"{scale}.shape == ()") is True or f.get(f"len({scale}.shape) == 0") is True
+        reshaped = any(isinstance(nd, ast.Call) and isinstance(nd.func, ast.Attribute) and nd.func.attr in ("reshape", "view", "squeeze", "item") and U(nd.func.value) == scale for v in [p.end[1]] + [x for ef in p.effects for x in ef if isinstance(x, ast.AST)] for nd in ast.walk(v))
+        chk.require("C06.R9", f"{ci.mod.rel}:{p.end[2]}", zero_dim or reshaped, f"SymmetricQuantizer.forward (per-tensor): the scale is known to be 0-dim on this accepting path (or is reshaped to it)", "SymmetricQuantizer.forward", "per-tensor scale is 0-dim",
+                    "a one-element scale that has dims (computed with keepdim=True): payload and dequantized value take the broadcast shape (1, n) while the tensor reports (n,)")
+    chk.floor("C06.R9", n, 1, "per-tensor accepting paths of the symmetric quantizer")
